@@ -242,7 +242,7 @@ def run(ctx):
         check_mono(ctx, {"clause": "monotonic", "base": base, "vary": var, "other": other, "convention": conv})
     for _ in range(ctx.share(n // 2)):
         if rng.random() < 0.7:
-            check_humidity(ctx, {"clause": "humidity", "kind": "equiv", "percent": rng.choice([rng.randint(2, 100), round(rng.uniform(1.01, 100), 3)]),
+            check_humidity(ctx, {"clause": "humidity", "kind": "equiv", "percent": rng.choice([rng.randint(2, 99), round(rng.uniform(1.01, 99.99), 3)]),   # the literal 1 (= 100 % as a fraction, 1 % as a percent) is ambiguous
                                  "alt_ft": round(rng.uniform(0, 9000), 0), "p_hpa": round(rng.uniform(600, 1050), 1),
                                  "t_c": round(rng.uniform(-30, 45), 1)})
         else:
